@@ -59,7 +59,7 @@ FS_STUBS = ["file system: engine-native model (namespace + sparse pages of byte 
 
 PROPS["C08"] = dict(
     explanation="Bounded symbolic execution of the real write and read paths end to end over the engine's file-system model: catalog.NewDirectory/AddTimeBucket (bucket creation from the template code), Writer.WriteCSM -> WriteRecords -> FlushToWAL/FlushCommandsToWAL (WAL records, fsync, primary WriteAt), then planner.Query.Parse -> NewReader/NewIOPlan -> Reader.Read (readForward/packingReader) -> RowSeries.ToColumnSeries. Timestamps (second within the day) and values are symbolic, the day is case-split inside a window around a year edge and a leap day; the oracle (unix-second arithmetic only) is asserted on the query result.",
-    runs=[dict(pkg="executor", files=["c08_fixed.go"], entries=["VerifC08TwoWrites"], must_reach=["entered", "written", "queried"], opts=dict(timeout=60))],
+    runs=[dict(pkg="executor", files=["c08_fixed.go"], entries=["VerifC08TwoWrites", "VerifC08History"], must_reach=["entered", "written", "queried"], opts=dict(timeout=60))],
     bounds=["1D fixed-length bucket with one int32 column", "two write requests of one row each", "days case-split over 4 consecutive days at 30 Dec 2019..2 Jan 2020 and 27 Feb..1 Mar 2020 (16 ordered pairs each, incl. same day)", "second within the day 0..86399 (symbolic), values any int32"],
     outside=["other timeframes and column types (C29 covers column layouts, C30 the index arithmetic for every timeframe)", "more than two requests / rows per request", "years other than 2019/2020", "known finding region: a row dated 1 January of a 1D bucket is never returned (index 0 = hole marker)"],
     stubs=FS_STUBS, assumptions=COMMON_ASSUME,
